@@ -68,15 +68,12 @@ def fold_omit(im: Image):
     return f
 
 
-_ff_cache: dict = {}
-
-
 def folded(im: Image) -> "FactoryFold":
-    key = id(im)
-    if key not in _ff_cache:
-        _ff_cache.clear()
-        _ff_cache[key] = fold_factories(im)
-    return _ff_cache[key]
+    ff = getattr(im, "_factory_fold", None)
+    if ff is None:
+        ff = fold_factories(im)
+        im._factory_fold = ff
+    return ff
 
 
 def factory_wiring(im: Image) -> list[tuple[str, str, int]]:
